@@ -38,6 +38,53 @@ int main(int argc, char** argv) {
     std::string path = dir + "/c12_ext_" + std::to_string((long)getpid()) + "_" + std::to_string(C12_SEL);
     return hv::run([&](std::string const& line) -> std::string {
         auto w = hv::words(line);
+        //   reuse <fmt> <pix> <api> <dev> <pw> <ph> <k> (<w> <h> <hex>){k}: k round trips through one destination image (c12.hpp)
+        if (!w.empty() && w[0] == "reuse") {
+            std::string api, dev; int pw = 0, ph = 0; std::vector<step_t> steps;
+            if (!parse_reuse(w, api, dev, pw, ph, steps)) return "bad-op";
+            std::string const &fmt = w[1], &pix = w[2];
+#define RUX(F, P, TAG, IMG, CB) if (fmt == F && pix == P) return reuse_seq<gil::TAG, gil::IMG, CB>(api, dev, pw, ph, steps, path);
+#if SEL(1)
+            RUX("png", "gray8", png_tag, gray8_image_t, 1)
+            RUX("png", "rgb8", png_tag, rgb8_image_t, 1)
+            RUX("png", "rgba8", png_tag, rgba8_image_t, 1)
+#endif
+#if SEL(2)
+            RUX("png", "gray16", png_tag, gray16_image_t, 2)
+            RUX("png", "rgb16", png_tag, rgb16_image_t, 2)
+#endif
+#if SEL(3)
+            if (fmt == "png" && pix == "gray1") return reuse_seq_mut<gil::png_tag, gil::gray1_image_t, 1>(api, dev, pw, ph, steps, path);
+#endif
+#if SEL(4) || SEL(5) || SEL(6) || SEL(7)
+            { gil::image_write_info<gil::tiff_tag> info; std::string why;
+              if (tiff_info(fmt, info, why)) {
+#define RUT(P, IMG, CB) if (pix == P) return reuse_seq<gil::tiff_tag, gil::IMG, CB, gil::image_write_info<gil::tiff_tag>>(api, dev, pw, ph, steps, path, info);
+#if SEL(4)
+                RUT("gray8", gray8_image_t, 1)
+                RUT("rgb8", rgb8_image_t, 1)
+#endif
+#if SEL(5)
+                RUT("gray16", gray16_image_t, 2)
+                RUT("rgb16", rgb16_image_t, 2)
+#endif
+#if SEL(6)
+                RUT("gray32f", gray32f_image_t, 4)
+                RUT("cmyk8", cmyk8_image_t, 1)
+#endif
+#if SEL(7)
+                if (pix == "gray4") return reuse_seq_mut<gil::tiff_tag, gil::gray4_image_t, 1, gil::image_write_info<gil::tiff_tag>>(api, dev, pw, ph, steps, path, info);
+#endif
+              } else if (!why.empty()) return why; }
+#endif
+#if SEL(8)
+            if (fmt == "jpeg") { gil::image_write_info<gil::jpeg_tag> info(100);
+                if (pix == "gray8") return reuse_seq<gil::jpeg_tag, gil::gray8_image_t, 1, gil::image_write_info<gil::jpeg_tag>>(api, dev, pw, ph, steps, path, info);
+                if (pix == "rgb8") return reuse_seq<gil::jpeg_tag, gil::rgb8_image_t, 1, gil::image_write_info<gil::jpeg_tag>>(api, dev, pw, ph, steps, path, info);
+                if (pix == "cmyk8") return reuse_seq<gil::jpeg_tag, gil::cmyk8_image_t, 1, gil::image_write_info<gil::jpeg_tag>>(api, dev, pw, ph, steps, path, info); }
+#endif
+            return "unsupported";
+        }
         if (w.size() == 8 && w[0] == "rtx") {
             std::string const &fmt = w[1], &pix = w[2], &org = w[3], &dev = w[4];
             int W = (int)hv::to_ll(w[5]), H = (int)hv::to_ll(w[6]); bytes px = unhex(w[7]);
